@@ -486,3 +486,16 @@ CHECKS["C19"] = dict(
     outside=["the std::ostringstream / std::istringstream plumbing of cereal (replaced by the memory-backed archives of vlib/vcereal.h with the same byte format)", "RealMPFR / ComplexMPC (not in this build)", "expressions with more than one symbolic slot per class representative"],
     assumptions=["vlib/vcereal.h reproduces the byte format of cereal::PortableBinary{Output,Input}Archive on a little-endian machine"],
 )
+
+CHECKS["C20"] = dict(
+    src="C20.cpp", level="model_checking",
+    entries=[
+        dict(name="harness_c20_mutate", quick={"nmut": 1, "alloc_fail_throws": 1, "_opts": ["--alloc-cap", "1048576"]}, thorough={"nmut": 2, "nexpr": 6, "alloc_fail_throws": 1, "_wall": 2400, "_opts": ["--alloc-cap", "1048576"]}),
+        dict(name="harness_c20_truncate", quick={"alloc_fail_throws": 1, "_opts": ["--alloc-cap", "1048576"]}, thorough={"alloc_fail_throws": 1, "_opts": ["--alloc-cap", "1048576"]}),
+        dict(name="harness_c20_matrix", quick={"alloc_fail_throws": 1, "maxpos": 40, "_opts": ["--alloc-cap", "1048576"]}, thorough={"alloc_fail_throws": 1, "maxpos": 400, "_opts": ["--alloc-cap", "1048576"]}),
+    ],
+    anchors=["SymEngine::RCPBasicAwareInputArchive", "SymEngine::load_basic", "SymEngine::load_helper"],
+    bounds="valid dumps of 14 expressions (Integer, Rational, Add, Mul/Pow, Sin, RealDouble, Complex, FunctionSymbol, Interval, FiniteSet, And of relationals, Piecewise, a sum with a shared subterm (back references), atan2) with one byte (thorough: two bytes, first six expressions) at every position replaced by a fully symbolic byte (all 256 values decided by the solver), every truncation of those dumps, and the DenseMatrix loader on a 2x2 dump with one symbolic byte in the first 40 (400) positions; loads must return an expression or throw a C++ exception, every load/store/free is checked by the executor, and a returned expression is printed, hashed, compared and its arguments visited",
+    outside=["more than two mutated bytes", "the std::istream plumbing (memory-backed archive of vlib/vcereal.h instead)", "allocation requests above 1 MB are modelled as failing with std::bad_alloc", "evaluating a loaded expression numerically"],
+    technique="bounded symbolic execution of LLVM IR of the real deserializer with symbolic input bytes and memory-safety monitors + SMT (z3)",
+)
